@@ -312,10 +312,14 @@ func main() {
 	lap("tag_histories")
 	metaHistories(run, run.Scale(60, 400), 14)
 	lap("meta_histories")
+	chkHistories(run, run.Scale(70, 400), 16)
+	lap("check_histories")
 	pre, ls := catalogAlphabet()
 	exhaustive(run, "catalog", qs, pre, ls, run.Scale(2, 3))
 	pre, ls = kvAlphabet()
 	exhaustive(run, "kv", qs, pre, ls, run.Scale(2, 3))
 	lap("exhaustive")
+	loopScripts(run, run.Scale(400, 4000))
+	lap("loop_scripts")
 	run.Finish()
 }
